@@ -15,7 +15,8 @@ TRUSTED = [
     "harness/h07 (case generator, program text, decoding of run results, Coq printer, impl-level oracle), "
     "cairo-lang-runner + cairo-vm as the notion of 'run time', lib/vlib.py",
 ]
-THEOREMS = ["C07_const_eval", "C07_error_iff_panic", "C07_const_bool"]
+THEOREMS = ["C07_const_eval", "C07_error_iff_panic", "C07_const_bool", "C07_const_cast", "C07_fold_call",
+            "C07_fold_call_int", "C07_fold_call_div_partial", "C07_fold_match", "C07_identity_rewrites"]
 
 
 def run(ctx):
@@ -116,7 +117,22 @@ def run(ctx):
 
 
 OPERATOR_SET = {
-    "const_eval (constant.rs) vs Rt": "neg add sub mul div rem bitand bitor bitxor eq ne lt le gt ge div_rem on "
-                                      "u8 u16 u32 u64 u128 u256 i8 i16 i32 i64 i128 felt252 (where the corelib "
-                                      "implements the operator); bool not and or xor eq ne && ||",
+    "const_eval (constant.rs evaluate_function_call) vs Rt, theorem C07_const_eval":
+        "neg add sub mul div rem bitand bitor bitxor eq ne lt le gt ge div_rem on u8 u16 u32 u64 u128 u256 i8 i16 "
+        "i32 i64 i128 felt252 (where the corelib implements the operator); bool not and or xor eq ne && || "
+        "(C07_const_bool, complete enumeration)",
+    "const_cast (constant.rs evaluate_const_function_call) vs Rt, theorem C07_const_cast":
+        "Into: upcast (30 Upcastable pairs), uN/iN_to_felt252, uN->u256, felt252->u256 (u128s_from_felt252); "
+        "TryInto: downcast between the 10 integer types, uN/iN_try_from_felt252 (felt252_for_downcast), "
+        "u128_try_from_felt252; TryInto<T,NonZero<T>> (T_is_zero incl. u256); generic bounded_int::downcast",
+    "fold (const_folding.rs handle_statement_call / handle_extern_block_end) vs Rt, theorems C07_fold_call*, "
+    "C07_fold_match, C07_identity_rewrites":
+        "felt252 add sub mul (const/const and the 0/1 shortcuts), felt252 div (shortcuts; const/const under the "
+        "inverse hypothesis), wide_mul / bounded_int_mul, bounded_int_add/sub, div_rem (uN_safe_divmod, "
+        "bounded_int_div_rem), upcast; is_zero, uN/iN eq (+ rewrite to is_zero), uN_overflowing_add/sub, "
+        "iN_overflowing_add/sub_impl, iN_diff (TypeRange::normalized, arm selection, x+0/0+x/x-0), downcast "
+        "(known value incl. felt252, range subsumption), bounded_int_constrain, bounded_int_trim_min/max",
+    "explored by the impl-level oracle only (no Coq model)":
+        "u256 -> uN / felt252 TryInto, compound const expressions (tuples, structs, enums, if, match, &&, ||, "
+        "let-destructuring) through the evaluator's interpreter, const fn calls",
 }
